@@ -90,6 +90,9 @@ inline void sim_defaults_from_seed(Cfg& c, Rng& r, int nranks) {
     c.def("pctd", r.range(0, 3));
     c.def("pcth", r.pick(std::vector<int>{200, 1000, 5000}));
     c.def("cap", 200000);
+    // processors reported by omp_get_num_procs(): independent of the team size (oversubscription is legal). Drawn from a copy
+    // of the generator so that the draws of the callers (and therefore every recorded seed) stay what they were.
+    { Rng r2 = r; c.def("oprocs", r2.pick(std::vector<int>{1, 2, 3, 4, 8, 16, 16, 64})); }
 }
 
 inline sim::Options sim_options(const Cfg& c, int nranks, uint64_t seed) {
@@ -104,9 +107,14 @@ inline sim::Options sim_options(const Cfg& c, int nranks, uint64_t seed) {
     o.bcast_wait_pct = (int)c.i("bwait", 0);
     o.leave_early_pct = (int)c.i("early", 100);
     o.reduce_shuffle = c.i("rshuf", 0) != 0;
-    o.omp_threads = (int)c.i("omp", 1); o.omp_shuffle = c.i("oshuf", 0) != 0;
+    o.omp_threads = (int)c.i("omp", 1); o.omp_shuffle = c.i("oshuf", 0) != 0; o.omp_procs = (int)c.i("oprocs", 16);
     o.pct_depth = (int)c.i("pctd", 0); o.pct_horizon = c.i("pcth", 2000);
     o.step_cap = c.i("cap", 200000);
+#ifdef SIM_GOMP_THREADS
+    // real-thread builds (ThreadSanitizer / helgrind parts): OpenMP teams are real threads, so the rank must not be a fiber;
+    // a one-rank world runs inline on the caller's stack (every MPI call of a single rank completes on the spot)
+    if (nranks == 1) o.inline_single = true;
+#endif
     return o;
 }
 
@@ -267,6 +275,10 @@ __attribute__((used, visibility("default"))) const char* __asan_default_options(
     return "exitcode=77:detect_leaks=0:abort_on_error=0:allocator_may_return_null=1:detect_stack_use_after_return=1:handle_segv=1";
 }
 __attribute__((used, visibility("default"))) const char* __ubsan_default_options() { return "print_stacktrace=0:halt_on_error=0"; }
+// ThreadSanitizer builds (variant "tsan"): the first race report ends the process (exit 66) so that it is attributed to the seed in progress
+__attribute__((used, visibility("default"))) const char* __tsan_default_options() {
+    return "halt_on_error=1:exitcode=66:report_signal_unsafe=0:second_deadlock_stack=0:history_size=4";
+}
 void __ubsan_get_current_report_data(const char** kind, const char** msg, const char** file, unsigned* line, unsigned* col, char** addr) __attribute__((weak));
 void __sanitizer_symbolize_pc(void* pc, const char* fmt, char* out_buf, size_t out_buf_size) __attribute__((weak));
 int backtrace(void** buffer, int size);
